@@ -7,7 +7,10 @@ import (
 	"bytes"
 	"errors"
 	"fmt"
+	"os"
+	"path/filepath"
 	"strings"
+	"sync"
 
 	"github.com/google/safehtml"
 	"github.com/google/safehtml/template"
@@ -20,7 +23,7 @@ import (
 // Op is one API call. H is the handle variable it is applied to, Dst the variable that
 // receives a returned handle (-1 if none).
 type Op struct {
-	Kind string `json:"k"` // new tnew parse clone lookup templates defined name exec exect exechtml execthtml csp
+	Kind string `json:"k"` // new tnew parse parsefiles parseglob parsefs clone lookup templates defined name exec exect exechtml execthtml csp
 	H    int    `json:"h"`
 	Dst  int    `json:"d"`
 	Name string `json:"n,omitempty"`
@@ -34,7 +37,9 @@ func (o Op) IsExec() bool {
 }
 
 // IsParse reports whether the op (re)defines templates.
-func (o Op) IsParse() bool { return o.Kind == "parse" }
+func (o Op) IsParse() bool {
+	return o.Kind == "parse" || o.Kind == "parsefiles" || o.Kind == "parseglob" || o.Kind == "parsefs"
+}
 
 // History is a replayable case.
 type History struct {
@@ -64,6 +69,46 @@ type Exec struct {
 	ticks int
 	data  []map[string]interface{}
 }
+
+var (
+	fileMu    sync.Mutex
+	fileCache = map[string][2]string{}
+	fileSeq   int
+)
+
+// fileFor returns a directory and a file in it holding the template text of a file-based
+// parse op. Files are cached per (name, text) for the life of the process; the orchestrator
+// removes the directory tree.
+func (e *Exec) fileFor(op Op) (string, string, error) {
+	name := op.Name
+	if name == "" || strings.ContainsAny(name, "/\x00") {
+		name = "file.tmpl"
+	}
+	key := name + "\x00" + op.Text
+	fileMu.Lock()
+	defer fileMu.Unlock()
+	if v, ok := fileCache[key]; ok {
+		return v[0], v[1], nil
+	}
+	root := os.Getenv("VERIF_ROOT")
+	if root == "" {
+		root = "/verif"
+	}
+	fileSeq++
+	d := filepath.Join(root, ".run", "histfiles", fmt.Sprint(os.Getpid()), fmt.Sprint(fileSeq))
+	if err := os.MkdirAll(d, 0o755); err != nil {
+		return "", "", err
+	}
+	p := filepath.Join(d, name)
+	if err := os.WriteFile(p, []byte(op.Text), 0o644); err != nil {
+		return "", "", err
+	}
+	fileCache[key] = [2]string{d, p}
+	return d, p, nil
+}
+
+// Close removes the scratch files of the executor.
+func (e *Exec) Close() {}
 
 // NewExec prepares an executor.
 func NewExec(h *History) *Exec {
@@ -131,6 +176,25 @@ func (e *Exec) Do(op Op) (res Result) {
 			if err == nil {
 				e.set(op.Dst, t)
 			}
+		case "parsefiles", "parseglob", "parsefs":
+			d, p, ferr := e.fileFor(op)
+			if ferr != nil {
+				panic("harness: cannot write template file: " + ferr.Error())
+			}
+			var t *template.Template
+			var err error
+			switch op.Kind {
+			case "parsefiles":
+				t, err = h.ParseFilesFromTrustedSources(template.TrustedSourceFromFlag(flagValue(p)))
+			case "parseglob":
+				t, err = h.ParseGlobFromTrustedSource(template.TrustedSourceFromFlag(flagValue(filepath.Join(d, "*"))))
+			default:
+				t, err = h.ParseFS(template.TrustedFSFromTrustedSource(template.TrustedSourceFromFlag(flagValue(d))), filepath.Base(p))
+			}
+			setErr(err)
+			if err == nil {
+				e.set(op.Dst, t)
+			}
 		case "clone":
 			t, err := h.Clone()
 			setErr(err)
@@ -188,9 +252,15 @@ func (e *Exec) set(dst int, t *template.Template) {
 	}
 }
 
+type flagValue string
+
+func (f flagValue) String() string   { return string(f) }
+func (f flagValue) Set(string) error { return nil }
+
 // Run executes the whole history.
 func Run(h *History) []Result {
 	e := NewExec(h)
+	defer e.Close()
 	out := make([]Result, len(h.Ops))
 	for i, op := range h.Ops {
 		out[i] = e.Do(op)
@@ -203,6 +273,7 @@ func Run(h *History) []Result {
 // result therefore depends only on definitions, name and data.
 func Reference(h *History, real []Result, k int) Result {
 	e := NewExec(h)
+	defer e.Close()
 	for i := 0; i < k; i++ {
 		op := h.Ops[i]
 		if op.IsExec() || !real[i].Ran || real[i].IsErr || real[i].Panic != "" {
@@ -256,7 +327,7 @@ func (m *Model) Apply(op Op, res Result) {
 		if op.Dst >= 0 {
 			m.setOf[op.Dst] = m.setOf[op.H]
 		}
-	case "parse":
+	case "parse", "parsefiles", "parseglob", "parsefs":
 		if !res.IsErr && op.Dst >= 0 {
 			m.setOf[op.Dst] = m.setOf[op.H]
 		}
@@ -302,6 +373,10 @@ func Gen(r *core.Rng, o GenOpts) (*History, gen.Set) {
 	add(Op{Kind: "new", Dst: 0, Name: "root", H: -1})
 	for _, t := range set.Texts {
 		add(Op{Kind: "parse", H: 0, Dst: 0, Text: t})
+	}
+	if o.ExtraDefs && r.Intn(3) == 0 {
+		fn := r.Pick([]string{"fromfile", "m0", "h0"})
+		add(Op{Kind: []string{"parsefiles", "parseglob", "parsefs"}[r.Intn(3)], H: 0, Dst: 0, Name: fn, Text: r.Pick([]string{"<i>file {{$.S0}}</i>", "<p title=\"{{$.S1}}\">f</p>", "static file"})})
 	}
 	names := append([]string{}, set.Members...)
 	if r.Intn(4) == 0 {
@@ -364,7 +439,17 @@ func Gen(r *core.Rng, o GenOpts) (*History, gen.Set) {
 			if r.Intn(3) == 0 {
 				txt = `{{define "brandnew"}}` + body + `{{end}}`
 			}
-			add(Op{Kind: "parse", H: v, Dst: v, Text: txt})
+			switch r.Intn(5) {
+			case 0, 1:
+				add(Op{Kind: "parse", H: v, Dst: v, Text: txt})
+			default:
+				// file-based: the base name of the file becomes the template name
+				fname := m
+				if r.Intn(3) == 0 {
+					fname = r.Pick([]string{"brandnew", "root", "x.tmpl"})
+				}
+				add(Op{Kind: []string{"parsefiles", "parseglob", "parsefs"}[r.Intn(3)], H: v, Dst: v, Name: fname, Text: body})
+			}
 		case k < 84:
 			if nextVar < h.NVar {
 				add(Op{Kind: "lookup", H: v, Dst: nextVar, Name: r.Pick(append([]string{"nope", "root", ""}, names...))})
